@@ -26,6 +26,8 @@ func (c *checkDef) Owns(prop string) bool {
 	return false
 }
 
+var loggingCases = []string{"two-writer-settings-in-one-document", "backups-then-file", "file-then-back", "rebuild-vs-log-reader", "backups-then-level", "level-then-compress-then-level"}
+
 func racePackages() []string {
 	return []string{"./cache", "./utils/event", "./proxy", "./proxy/certs", "./webserver/auth", "./logging"}
 }
@@ -596,15 +598,20 @@ func checkC19() *checkDef {
 				{Name: "unsubscribe-middle-vs-fire", Pre: []string{"S0", "S1", "S2"}, Threads: [][]string{{"U1"}, {"F5"}}, Prop: "C19", OthersNotified: []int{0, 2}},
 				{Name: "unsubscribe-last-vs-fire", Pre: []string{"S0", "S1", "S2"}, Threads: [][]string{{"U2"}, {"F5"}}, Prop: "C19", OthersNotified: []int{0, 1}},
 			}
-			return []run{
+			rs := []run{
 				{Pkg: "./utils/event", Scenario: "event/seq", Params: map[string]int{"listeners": 3, "depth": depth}},
 				{Pkg: "./utils/event", Scenario: "event/sched", Params: sc, K: k, E: 1, F: 2, Horizon: 2000, Workers: 4},
 				{Pkg: "./config", Scenario: "config/listener-sched", Params: map[string]any{}, K: k, E: 1, F: 2, Horizon: 5000, Workers: 4},
 				{Pkg: "./proxy", Scenario: "proxy/switches", Params: map[string]any{}, Workers: 8},
 				{Pkg: "./cache", Scenario: "cache/sched", Params: c19CacheScenarios(), K: k, E: 1, F: 2, Horizon: 5000},
 				{Pkg: "./cache", Scenario: "cache/settings", Params: map[string]any{"depth": 3}},
-				{Pkg: "./logging", Scenario: "logging/sched", Params: map[string]any{}, K: 2, E: 1, F: 1, Horizon: 20000, Workers: 16},
 			}
+			// (one run, i.e. a fresh set of worker processes, per case: the unchanged logging code leaks a
+			// file descriptor per rebuild, and a worker that went through every case would run out of them)
+			for _, only := range loggingCases {
+				rs = append(rs, run{Pkg: "./logging", Scenario: "logging/sched", Params: map[string]any{}, K: 2, E: 1, F: 1, Horizon: 20000, Workers: 16, Only: only})
+			}
+			return rs
 		},
 	}
 }
@@ -655,7 +662,7 @@ func checkC15() *checkDef {
 				ps = append(ps, sched{Name: "overwrites-vs-eviction-scan/" + be, cp: cp{Backend: be, Shards: 32, Limit: 500, Interval: 1000}, Prop: "C15",
 					Init: []string{"S:a:200", "S:c:200", "S:d:200", "T"}, Threads: [][]string{{"S:a:20", "S:c:20", "S:d:20"}}, Final: []string{"Q"}})
 			}
-			return []run{
+			rs := []run{
 				{Pkg: "./cache", Scenario: "cache/sched", Params: ps, K: k, E: 1, Horizon: 5000, Race: true},
 				{Pkg: "./utils/event", Scenario: "event/sched", Params: eventRaceScenarios(), K: k + 1, E: 1, Horizon: 2000, Race: true, Workers: 4},
 				{Pkg: "./proxy", Scenario: "proxy/sched", Params: proxyRaceScenarios(), K: k, E: 1, F: 1, Horizon: 8000, Race: true},
@@ -664,8 +671,11 @@ func checkC15() *checkDef {
 				// dashboard sessions: requests with one cookie, logins, logouts and the session GC pass
 				{Pkg: "./webserver/auth", Scenario: "auth/sched", Params: map[string]any{}, K: k + 1, E: 1, Horizon: 3000, Race: true, Workers: 4},
 				// the logging component rebuilding the process-wide logger from several change notifications
-				{Pkg: "./logging", Scenario: "logging/sched", Params: map[string]any{}, K: 1, E: 1, F: 1, Horizon: 20000, Race: true, Workers: 8},
 			}
+			for _, only := range loggingCases {
+				rs = append(rs, run{Pkg: "./logging", Scenario: "logging/sched", Params: map[string]any{}, K: 1, E: 1, F: 1, Horizon: 20000, Race: true, Workers: 8, Only: only})
+			}
+			return rs
 		},
 	}
 }
